@@ -5873,6 +5873,13 @@ class CodegenCtx:
                     transition_body.add(f"goto repeatswitch;");
             else:
                 pass # terminating state
+        # At the end of input nothing more can be consumed, so the result only depends on where this transition ends up
+        # (the immediate DONE above does not cover strict-done mode or accept states which still have transitions)
+        elif transition.target in self.dfa.states:
+            if transition.target in self.dfa.accepting_states:
+                transition_body.add(f"return {self.program_name.upper()}_DONE;")
+            else:
+                transition_body.add(f"return {self.program_name.upper()}_FAIL;")
         return transition_body.value()
 
     def _generate_condition(self, condition: DFCondition, from_end=False, from_action=False):
